@@ -198,7 +198,8 @@ pub fn run(a: &Args) {
         let j = judge(&h, &o, grid);
         // the model's binary32 arithmetic (the real limiter's, operation by operation) must give the very same decisions on
         // every history, rounding ties included; it also reports whether its own decisions met laws L1/L2 on every call
-        {
+        // (thorough tier: every third history and every rounding tie, to keep the run inside its time budget)
+        if !a.thorough || n % 3 == 0 || j.rounding_tie {
             let mut c = to_case(&h, &o, Judged { oracle: None, rounding_tie: false }, &format!("f32:{class}{}", if j.rounding_tie { ":tie" } else { "" }));
             c.request = c.request.replacen("c13.run", "c13.f32", 1);
             c.observed.push_str(" laws=ok");
